@@ -76,7 +76,7 @@ def pool_body(args):
         for i in range(6):
             if fs[i]:
                 return q.SKIP
-    pool = Pool(max_cores=sh["cores"], ignore_term=sh.get("ignore_term", False))
+    pool = Pool(max_cores=sh["cores"], ignore_term=sh.get("ignore_term", False), big_output=sh.get("big_output", False))
     pool.install()
     try:
         sched = pool.sched
@@ -123,7 +123,7 @@ def pool_body(args):
             return m
         stopped = False
         for step in range(nsteps):
-            enabled = [("exit", p) for p in pool.live()]
+            enabled = [("exit", p) for p in pool.can_exit()]
             enabled += [("cancel", t) for t in sorted(tids.values())]
             if pool.loop.has_timer():
                 enabled.append(("timer", None))
@@ -175,7 +175,7 @@ def pool_body(args):
                 name, deps, tl, _ = scen[i]
                 tids[i] = pool.enqueue(name, [tids[d] for d in deps], tl, spawn_fail=bool((sf >> i) & 1), log_fail=bool((lf >> i) & 1))
             progressed = False
-            for p in pool.live():
+            for p in pool.can_exit():
                 if pool.names.get(p.tid) in [scen[i][0] for i in range(nt) if scen[i][2] is not None] and sh.get("drain_timeouts", False):
                     continue
                 rc = rcs[rc_used[0]] if rc_used[0] < 4 else 0
@@ -226,6 +226,11 @@ def pool_body(args):
             spawned = tid in pool.spawn_facts
             if spawned and not pool.spawn_facts[tid]["deps_done_completed"]:
                 problems.append("[C11] task %s was started before all its dependencies had completed successfully" % nm)
+            if spawned:
+                for ok_ in pool.spawn_facts[tid]["deps_truly_ok"]:
+                    if not ok_:
+                        problems.append("[C11] task %s was started although the process of a dependency had not exited with status 0" % nm)
+                        break
             if (bad_failed or bad_cancel) and attempted:
                 # it may only have been started if every dependency was COMPLETED at that moment - checked above;
                 # a dependency cannot leave COMPLETED (checked by observe)
